@@ -31,12 +31,30 @@ def run(res, work, tier, seed):
     lines = vlib.read_lines(trace)
     res.judge_fails(fails, lines, lambda ln: vlib.case_context(lines, max(ln, 1), lambda s: '"e":"new"' in s))
     res.evaluations = meta["records"]
+    # long specifications (32 / 63 / 64 / 65 bounds: the top of the 1..64 range and beyond), all three paths
+    KL = 66
+    out2 = os.path.join(work, "runlong")
+    os.makedirs(out2)
+    vlib.stage_specs(out2)
+    vlib.run_vh(["c03", "-out", out2, "-seed", seed, "-tier", "quick", "-K", KL, "-L", KL, "-long"], timeout=1200)
+    meta2 = vlib.read_meta(out2)
+    tcfg2 = vlib.write_cfg(out2, "tracelong.cfg", "HistogramTrace.cfg", {"K": KL, "MaxSpecLen": KL})
+    trace2 = os.path.join(out2, "trace.ndjson")
+    fails2, r2 = vlib.tlc_trace(out2, "HistogramTrace.tla", tcfg2, trace2, meta2["events"], timeout=3000, xss=True)
+    if r2["violated"]:
+        fails2.append((0, "ModelInvariant:" + ",".join(r2["violated"]), None))
+    res.add_trace_run("HistogramTrace (specifications of 32..65 bounds)", r2, meta2["cases"], meta2["events"])
+    lines2 = vlib.read_lines(trace2)
+    res.judge_fails(fails2, lines2, lambda ln: vlib.case_context(lines2, max(ln, 1), lambda s: '"e":"new"' in s, max_lines=40))
+    res.evaluations += meta2["records"]
     res.distinct = meta["distinct"]
     res.exhaustive = True
     res.rule = ("all bucket specifications of length 0..%d over %d ordered bound tokens (unsorted, duplicated) x value/duration kind x "
                 "plain/cached/test-scope path x concretisation tables (integers, negative/zero, subnormal, near +-MaxFloat64 / Min/MaxInt64, seeded random; "
                 "between-samples one ulp above the lower or below the upper bound) x every sample token (each bound, between any two, MIN, MAX, -Inf, +Inf, NaN) "
-                "each followed by a report, plus a random batch; a case is distinct by (kind, spec, path, table)" % (L, K))
+                "each followed by a report, plus a random batch; a case is distinct by (kind, spec, path, table); "
+                "a duration reaches a value histogram also through a stopwatch started from it; specifications of 32 / 63 / 64 / 65 bounds, sorted and shuffled, "
+                "with the sample tokens around both ends and the top of the specification" % (L, K))
     res.samples = meta["samples"]
     res.extra.update(K=K, MaxSpecLen=L, specs=meta["specs"], value_tables=meta["value_tables"], duration_tables=meta["duration_tables"])
     res.assumptions += [
